@@ -12,6 +12,7 @@ mod sched_engine;
 mod openlock_engine;
 mod dsched;
 mod c10_engine;
+mod c09_engine;
 
 fn main() {
     let args = common::Args(std::env::args().skip(1).collect());
@@ -26,6 +27,7 @@ fn main() {
         Some("sched") => sched_engine::main(&args),
         Some("openlock") => openlock_engine::main(&args),
         Some("c10") => c10_engine::main(&args),
+        Some("c09") => c09_engine::main(&args),
         _ => {
             eprintln!("usage: harness <engine> …");
             2
